@@ -146,10 +146,39 @@ func init() {
 			}
 			var m0, m1 runtime.MemStats
 			runtime.ReadMemStats(&m0)
+			// goroutine stacks are memory too (a reader that recurses per input line): for long transcripts the
+			// stack memory in use is sampled while the session runs
+			var peakStack uint64
+			stopSampler, samplerDone := make(chan struct{}), make(chan struct{})
+			if len(input) > 200000 {
+				go func() {
+					defer close(samplerDone)
+					var m runtime.MemStats
+					for {
+						select {
+						case <-stopSampler:
+							return
+						case <-time.After(2 * time.Millisecond):
+							runtime.ReadMemStats(&m)
+							if m.StackInuse > peakStack {
+								peakStack = m.StackInuse
+							}
+						}
+					}
+				}()
+			} else {
+				close(samplerDone)
+			}
 			r := runSessionImpl(s, input)
+			close(stopSampler)
+			<-samplerDone
 			runtime.ReadMemStats(&m1)
 			if r.hung {
 				hangs++
+			}
+			if peakStack > m0.StackInuse && peakStack-m0.StackInuse > 16<<20+uint64(len(input))*8 {
+				c.Violate("C03:stack-out-of-proportion:"+class, fmt.Sprintf("goroutine stacks grew by %d MB while the session handled a %d-byte transcript", (peakStack-m0.StackInuse)>>20, len(input)),
+					map[string]interface{}{"role_master": s.master, "transcript_hex": trunc(hx(input), 12000), "transcript_len": len(input), "stack_growth_bytes": peakStack - m0.StackInuse})
 			}
 			if alloc := m1.TotalAlloc - m0.TotalAlloc; alloc > 48<<20+uint64(len(input))*2000 {
 				c.Violate("C03:allocation-out-of-proportion:"+class, fmt.Sprintf("the session allocated %d MB while handling a %d-byte transcript", alloc>>20, len(input)),
@@ -171,7 +200,7 @@ func init() {
 		}
 		// 1. named shapes against a slave and a master
 		hs := "[WL2K-5.0-B2FWIHJM$]\r"
-		named := []string{"F>\r", ";PQ\r", "\x00\r", "\x00\x00\r", "x\x00\r", "FS A-5\r", "FC EM AAAA 10 6 0\rF> 00\r", "FC EM AAAA -1 -1 0\rF> 3A\r", "FF\r", "FQ\r", "*** bye\r", "FC\rF>\r", "FA\rFB\rF> \r", ";FW: \r", "[x]\r", "\r\r\r", "F\r", "FZ\r", strings.Repeat("A", 70000) + "\r", ";PM: a b c d e\r"}
+		named := []string{"F>\r", ";PQ\r", "\x00\r", "\x00\x00\r", "x\x00\r", "FS A-5\r", "FC EM AAAA 10 6 0\rF> 00\r", "FC EM AAAA -1 -1 0\rF> 3A\r", "FF\r", "FQ\r", "*** bye\r", "FC\rF>\r", "FA\rFB\rF> \r", ";FW: \r", "[x]\r", "\r\r\r", "F\r", "FZ\r", strings.Repeat("A", 70000) + "\r", ";PM: a b c d e\r", strings.Repeat("\r", 400000), strings.Repeat("\x00\r", 200000)}
 		for _, n := range named {
 			for _, master := range []bool{false, true} {
 				s := newSpec("N0CALL", "LA1B", master)
@@ -258,6 +287,9 @@ func init() {
 				{"file-header-without-name", lz([]byte("Mid: AAAA\r\nBody: 2\r\nFile: 3\r\nDate: 2020/01/01 10:00\r\n\r\nhi\r\nabc\r\n")), ""},
 				{"file-header-empty", lz([]byte("Mid: AAAA\r\nBody: 2\r\nFile:\r\nDate: 2020/01/01 10:00\r\n\r\nhi\r\n")), ""},
 				{"file-header-non-numeric", lz([]byte("Mid: AAAA\r\nBody: 2\r\nFile: x y\r\nFile: 1\r\nFile: 1 a\r\nDate: 2020/01/01 10:00\r\n\r\nhi\r\nq\r\n")), ""},
+				{"file-name-encoded-word-empty", lz([]byte("Mid: AAAA\r\nBody: 2\r\nFile: 3 =?utf-8?q??=\r\nDate: 2020/01/01 10:00\r\n\r\nhi\r\nabc\r\n")), ""},
+				{"file-name-encoded-word-blank", lz([]byte("Mid: AAAA\r\nBody: 2\r\nFile: 3 =?iso-8859-1?b??=\r\nFile: 1 =?utf-8?q?_?=\r\nDate: 2020/01/01 10:00\r\n\r\nhi\r\nabc\r\nq\r\n")), ""},
+				{"file-name-unknown-charset", lz([]byte("Mid: AAAA\r\nBody: 2\r\nFile: 1 =?koi8-r?q?a?=\r\nDate: 2020/01/01 10:00\r\n\r\nhi\r\nq\r\n")), ""},
 				{"file-name-encoded-word-garbage", lz([]byte("Mid: AAAA\r\nBody: 2\r\nFile: 1 =?utf-8?q?=ZZ?=\r\nDate: 2020/01/01 10:00\r\n\r\nhi\r\nq\r\n")), ""},
 				{"date-missing", lz([]byte("Mid: AAAA\r\nBody: 2\r\n\r\nhi\r\n")), ""},
 				{"headers-only-no-blank-line", lz([]byte("Mid: AAAA\r\nBody: 2")), ""},
